@@ -507,9 +507,17 @@ func MetaDataKVHandler(resHolder *SearchResult, attrGetter AttributeGetter, addi
 		if len(attrs) > 0 {
 			var err error
 			if intPrimMatcher {
-				if collected[0], err = RestoreIntAttribute(primDBVal); err != nil {
-					resHolder.Err = invalidMetaBucketKeyErr(k, fmt.Errorf("invalid integer value: %w", err))
+				// the integer index keeps the number only: take the spelling from the stored value
+				stored, err := attrGetter.Get(id, attrs[0])
+				if err != nil {
+					resHolder.Err = err
 					return false
+				}
+				if collected[0] = string(stored); stored == nil {
+					if collected[0], err = RestoreIntAttribute(primDBVal); err != nil {
+						resHolder.Err = invalidMetaBucketKeyErr(k, fmt.Errorf("invalid integer value: %w", err))
+						return false
+					}
 				}
 			} else {
 				if collected[0], resHolder.Err = restoreAttributeValue(fs[0].Header(), primDBVal); err != nil {
